@@ -2,29 +2,15 @@
 
 package main
 
-import (
-	"sort"
-
-	"github.com/restic/restic/internal/bloblru"
-	"github.com/restic/restic/internal/repository"
-	"github.com/restic/restic/internal/repository/index"
-	"github.com/restic/restic/internal/repository/pack"
-	"github.com/restic/restic/internal/restorer"
-)
+import "sort"
 
 var _ = verifRegister("facts", streamFacts)
 
 // streamFacts prints the values of constants of the *current* source (evaluated by the Go
-// compiler) as `fact <name> <int>` lines; vcheck turns them into lean/Restic/Gen/Consts.lean.
+// compiler, exported by shims and registered with verifRegisterFacts) as `fact <name> <int>`
+// lines; vcheck turns them into lean/Restic/Gen/Consts.lean.
 func streamFacts(h *H) {
-	all := map[string]int64{
-		"check_totalBucketsMax": int64(totalBucketsMax),
-	}
-	for _, m := range []map[string]int64{pack.VerifFacts(), index.VerifFacts(), repository.VerifFacts(), bloblru.VerifFacts(), restorer.VerifFacts()} {
-		for k, v := range m {
-			all[k] = v
-		}
-	}
+	all := map[string]int64{}
 	for _, f := range verifFactFns {
 		for k, v := range f() {
 			all[k] = v
